@@ -34,18 +34,33 @@ MODES = ["call", "call", "call", "graph", "solve_shapes", "solve_axes", "matches
 def c09_case(draw, tier="quick", k=0):
     # "simple" calls (no flattening / permutation) hand the caller's buffers to the backend functions
     # unchanged, which is where an in-place hazard (out= aliasing, in-place sort/put) would bite
-    if draw(st.integers(0, 9)) == 0:
+    r = draw(st.integers(0, 9))
+    prone = False
+    if r == 0:
         # n-ary scalar operations with >=3 aligned operands (third positional argument of a ufunc is out=)
         base = draw(G.call_case(ops=G.ELEMENTWISE_NARY, quick=True, simple=True, min_inputs=3))
+    elif r <= 2:
+        # operations whose numpy lowering has an in-place variant (ndarray.sort, put, ufunc.at, out=): contiguous writable
+        # buffers (a view of the caller's array survives reshapes) and read-only buffers (a write raises)
+        prone = True
+        base = draw(G.call_case(ops=G.PRESERVE + G.UPDATE + ["get_at"] + G.ARGFIND, quick=True, simple=draw(st.integers(0, 3)) == 0, backends=G.BACKENDS))
+    elif r == 3:
+        # indexed updates in their plainest forms (few coordinates, target without vectorised axes): the coordinate tensors
+        # reach the index arithmetic of the back end unchanged
+        prone = True
+        base = draw(G.call_case(ops=G.UPDATE, quick=True, backends=G.BACKENDS, flags={"coord1": draw(st.booleans()), "k1": True, "tgt_novec": draw(st.booleans()), "no_extras": draw(st.booleans())}))
     else:
         base = draw(G.stratified_case(k, quick=(tier == "quick"), simple=draw(st.booleans()), backends=G.BACKENDS + [LV.NAME]))
-    layouts = [draw(st.sampled_from(LAYOUTS)) for _ in base["ins"]]
+    layouts = [draw(st.sampled_from(["C", "C", "readonly", "readonly", "F"] if prone else LAYOUTS)) for _ in base["ins"]]
     for i, d in enumerate(base["data"]):
         if d["kind"] == "coord" and layouts[i] == "broadcast":
             layouts[i] = "readonly"  # a broadcast view would change coordinate values (range!)
     mode = draw(st.sampled_from(MODES))
     size_kind = {k: draw(st.sampled_from(["plain", "nparray", "nparray32", "npint", "list", "list_np"])) for k in list(base["sizes"]) + ["shift"]}
-    return {"base": base, "layouts": layouts, "mode": mode, "size_kind": size_kind}
+    # negative coordinates (numpy's wrap-around equivalents of the drawn ones): whatever the call makes of them, the
+    # coordinate tensors must come back unchanged
+    neg = prone and draw(st.booleans())
+    return {"base": base, "layouts": layouts, "mode": mode, "size_kind": size_kind, "neg_coords": neg}
 
 
 def layout_array(a, layout):
@@ -125,6 +140,11 @@ def evaluate(rc, stats):
     op = base["op"]
     is_update = op in G.UPDATE
     arrays = G.build_arrays(base)
+    if rc.get("neg_coords"):
+        for i, d in enumerate(base["data"]):
+            if d["kind"] == "coord" and len(d["hi"]) == 1:
+                arrays[i] = arrays[i] - int(d["hi"][0])
+        stats.count("negative_coordinates")
     passed, owners = [], []
     for i, (a, lay) in enumerate(zip(arrays, layouts)):
         if is_update and i == 0 and lay in ("broadcast", "readonly"):
